@@ -20,6 +20,7 @@ import setigen as stg
 from setigen import cadence as CAD
 
 ORDER = "ABCDEFGH"
+NBADFRAMES = 7      # incompatible Frame objects in the pool (the rest are non-frames)
 
 
 def pool():
@@ -28,6 +29,9 @@ def pool():
            stg.Frame(fchans=4, tchans=2, df=1.0, dt=2.0, fch1=100.0, t_start=0., seed=9),     # dt differs
            stg.Frame(fchans=5, tchans=2, df=1.0, dt=1.0, fch1=101.0, t_start=0., seed=9),     # fchans differs (fmin equal)
            stg.Frame(fchans=4, tchans=2, df=1.0, dt=1.0, fch1=101.0, t_start=0., seed=9),     # fmin differs
+           stg.Frame(fchans=4, tchans=2, df=1.0 + 1e-9, dt=1.0, fch1=100.0, t_start=0., seed=9),          # df differs by 1e-9
+           stg.Frame(fchans=4, tchans=2, df=1.0, dt=1.0 - 1e-12, fch1=100.0, t_start=0., seed=9),         # dt differs in the last digits
+           stg.Frame(fchans=4, tchans=2, df=1.0, dt=1.0, fch1=100.0 + 1e-7, t_start=0., seed=9),          # fmin differs by a tiny offset
            "not a frame", 7]
     return ok, bad
 
@@ -63,9 +67,9 @@ def job_step(kind, n, op):
                     cad.frames = [ok[s] for s in st]
                     ref = list(cad.frames)
                     v = None if ob is None else (ok[ob] if ob < 4 else bad[ob - 4])
-                    valid = ob is not None and (ob < 4 or (n == 0 and ob - 4 < 4))
+                    valid = ob is not None and (ob < 4 or (n == 0 and ob - 4 < NBADFRAMES))
                     had = ob is not None and ob < 4 and 'order_label' in v.metadata
-                    meta_before = None if (ob is None or ob >= 8) else dict(v.metadata)
+                    meta_before = None if (ob is None or ob >= 4 + NBADFRAMES) else dict(v.metadata)
                     res, exc = None, None
                     try:
                         if op == 'append':
@@ -245,8 +249,8 @@ def replay_step(p):
     ref = list(cad.frames)
     ob, op, i, n = p['ob'], p['op'], p['i'], len(p['state'])
     v = None if ob is None else (ok[ob] if ob < 4 else bad[ob - 4])
-    o = dict(cad=cad, ref=ref, v=v, valid=ob is not None and (ob < 4 or (n == 0 and ob - 4 < 4)), had=ob is not None and ob < 4 and 'order_label' in v.metadata,
-             res=None, exc=None, meta_before=None if (ob is None or ob >= 8) else dict(v.metadata), ob=ob, lab=p['lab'])
+    o = dict(cad=cad, ref=ref, v=v, valid=ob is not None and (ob < 4 or (n == 0 and ob - 4 < NBADFRAMES)), had=ob is not None and ob < 4 and 'order_label' in v.metadata,
+             res=None, exc=None, meta_before=None if (ob is None or ob >= 4 + NBADFRAMES) else dict(v.metadata), ob=ob, lab=p['lab'])
     try:
         if op == 'append':
             cad.append(v)
